@@ -157,6 +157,11 @@ def generate(seed):
     shared_kernel = r.random() < 0.4
     if shared_kernel:
         prolog.append("build 0 0 0")
+    # objects handed out the way the C API does it: dontUseRefs() - their handle rings are still linked and unlinked
+    # by every copy, only the last handle does not free them (they go with an explicit free() or with the device)
+    norefs = [w for w in (0, 1) if r.random() < 0.2]
+    for w in norefs:
+        prolog.append("norefs M %d" % w)
     threads = []
     for t in range(1, n + 1):
         s = slots_of(t)
